@@ -870,6 +870,7 @@ spifconf_parse_line(FILE * fp, spif_charptr_t buff)
     register unsigned long i = 0;
     unsigned char id;
     void *state = NULL;
+    spif_charptr_t word;
 
     ASSERT(buff != NULL);
 
@@ -892,7 +893,11 @@ spifconf_parse_line(FILE * fp, spif_charptr_t buff)
       case '\0':
           SPIFCONF_PARSE_RET();
       case '%':
-          if (!BEG_STRCASECMP(spiftool_get_pword(1, buff + 1), "include ")) {
+          if (!(word = spiftool_get_pword(1, buff + 1))) {
+              /* A lone '%':  no directive word. */
+              SPIFCONF_PARSE_RET();
+          }
+          if (!BEG_STRCASECMP(word, "include ")) {
               spif_charptr_t path;
               FILE *fp;
 
@@ -904,7 +909,7 @@ spifconf_parse_line(FILE * fp, spif_charptr_t buff)
               } else {
                   file_push(fp, path, NULL, 1, 0);
               }
-          } else if (!BEG_STRCASECMP(spiftool_get_pword(1, buff + 1), "preproc ")) {
+          } else if (!BEG_STRCASECMP(word, "preproc ")) {
               spif_char_t cmd[PATH_MAX], fname[PATH_MAX];
               spif_charptr_t outfile;
               int fd;
